@@ -168,6 +168,13 @@ def check_case(ctx, case):
              ("catalog_M", lambda: CE.magnitude_test(cf(), cat(), verbose=False)), ("catalog_PL", lambda: CE.pseudolikelihood_test(cf(), cat(), verbose=False))]
     if S.nm >= 2:
         runs += [("catalog_resampledM", lambda: CE.resampled_magnitude_test(cf(), cat(), seed=1)), ("catalog_MLL", lambda: CE.MLL_magnitude_test(cf(), cat(), seed=1))]
+    # a forecast whose rate array is single precision: the numeric members of its N-test results are numpy.float32 scalars
+    from csep.core.forecasts import GriddedForecast
+    f32 = call(lambda: GriddedForecast(start_time=G.T0, end_time=G.T1, data=numpy.asarray(S.rates, dtype=numpy.float32), region=S.region(),
+                                       magnitudes=numpy.array(S.edges), name=NA))
+    if f32.ok:
+        runs += [("poisson_N:float32_rates", lambda: P.number_test(f32.value, cat())),
+                 ("nbd_N:float32_rates", lambda: Bn.negative_binomial_number_test(f32.value, cat(), float(S.rates.sum()) * 3 + 1))]
     produced = []
     for tag, f in runs:
         o = call(f)
